@@ -511,12 +511,10 @@ class PreparedStatementPlanner():
             if len(params) != len(stmt.params):
                 raise PlanningException("Count of execution parameters don't match prepared statement")
 
-            query = utils.fill_query_params(query, params)
-
-            self.planner.query = query
-
-        # prevent from second execution
-        stmt.params = None
+            if len(params) > 0:
+                # bind the values in a copy: the prepared statement (and the caller's tree) keeps its placeholders
+                # and can be executed again with other values
+                query = utils.fill_query_params(copy.deepcopy(query), params)
 
         if (
                 isinstance(query, ast.Select)
